@@ -82,6 +82,8 @@ TIE_SEARCH = {
     "emit_return_skeleton": ("TieStatements", "emit_return"), "return_statement_skeleton": ("TieStatements", "return_statement"),
     "throw_statement_skeleton": ("TieStatements", "throw_statement"), "try_statement_skeleton": ("TieStatements", "try_statement"),
     "try_statement_no_clause": ("TieStatements", "try_statement"),
+    "break_statement_skeleton": ("TieStatements", "break_statement"), "continue_statement_skeleton": ("TieStatements", "continue_statement"),
+    "while_statement_skeleton": ("TieStatements", "while_statement"), "if_statement_skeleton": ("TieStatements", "if_statement"),
     "vm_unwind_contract": ("TieHandlers", "vm_unwind_stack"), "vm_unwind_uncaught": ("TieHandlers", "vm_unwind_stack"),
     "vm_push_handler_effect": ("TieHandlers", "fiber_push_exc_handler"), "vm_pop_handler_effect": ("TieHandlers", "vm_pop_exc_handler_impl"),
     "vm_jump_finally_effect": ("TieHandlers", "vm_jump_finally_impl"), "vm_end_finally_pending_return": ("TieHandlers", "vm_end_finally_impl"),
